@@ -26,7 +26,9 @@ type Script struct {
 	// OnDisk: directory for goleveldb databases ("" = MemDB). Needed for restart steps in separate processes.
 	OnDisk string `json:"on_disk,omitempty"`
 	// PerTx: additionally emit a full snapshot after BeginBlock ("begin") and after every DeliverTx ("tx") of blocks >= PerTxFrom.
-	PerTx     bool  `json:"per_tx,omitempty"`
+	// GenesisJSON: raw exported application state used instead of the generated genesis (export/import checks)
+	GenesisJSON string `json:"genesis_json,omitempty"`
+	PerTx       bool   `json:"per_tx,omitempty"`
 	PerTxFrom int64 `json:"per_tx_from,omitempty"`
 }
 
@@ -49,6 +51,9 @@ type MidOp struct {
 	What   string `json:"what,omitempty"` // appquery kind
 	Arg    string `json:"arg,omitempty"`
 	Arg2   string `json:"arg2,omitempty"`
+	// Repeat > 0 (checktx only): issue the call Repeat times, each time with a 4-byte counter appended to the bytes
+	// (a burst of distinct, mostly undecodable transactions as a mempool under load would see)
+	Repeat int `json:"repeat,omitempty"`
 }
 
 // Record is one line of the child's trace.
@@ -115,6 +120,10 @@ func (e *Executor) offchain(op MidOp) {
 			bz, _ := hex.DecodeString(op.Tx)
 			r := n.App.CheckTx(abci.RequestCheckTx{Tx: bz})
 			res.Code, res.Digest = r.Code, dig([]interface{}{r.Code, r.Data})
+			for i := 0; i < op.Repeat; i++ {
+				v := append(append([]byte{}, bz...), byte(i>>24), byte(i>>16), byte(i>>8), byte(i))
+				n.App.CheckTx(abci.RequestCheckTx{Tx: v})
+			}
 		case "simulate":
 			bz, _ := hex.DecodeString(op.Tx)
 			r := n.App.Query(abci.RequestQuery{Path: "/app/simulate", Data: bz})
@@ -296,7 +305,7 @@ func ChildMain(args []string) int {
 
 // RunScript executes the script in this process.
 func RunScript(sc Script, out func(Record), audit bool) int {
-	cfg := NodeCfg{Gen: sc.Gen, Cache: sc.Cache}
+	cfg := NodeCfg{Gen: sc.Gen, Cache: sc.Cache, GenesisJSON: sc.GenesisJSON}
 	if sc.OnDisk != "" {
 		cfg.AppDB, cfg.BlockDB, cfg.TxDB = openDiskDBs(sc.OnDisk)
 	}
@@ -329,6 +338,8 @@ func RunScript(sc Script, out func(Record), audit bool) int {
 				r.Err = err.Error()
 			}
 			out(r)
+		case "snapshot":
+			out(Record{Kind: "snapshot", Snap: n.Snapshot()})
 		case "save":
 			if err := n.SaveDriverState(sc.OnDisk); err != nil {
 				out(Record{Kind: "done", Err: "save: " + err.Error()})
